@@ -33,6 +33,21 @@ pub fn check_xor(ctx: &mut Ctx, a: &RefAddr, tid: &[u8; 12], through_message: bo
         t2b[11] ^= 0x01;
         t2b[0] ^= 0x80;
         let other = XorMappedAddress::from_raw(&raw).map(|d| d.addr(imp::tid_from_bytes(&t2b))).ok();
+        // the same attribute object asked repeatedly, under alternating transaction ids, and its clone:
+        // every answer is a function of (wire value, id given to that call) only
+        let t2 = imp::tid_from_bytes(&t2b);
+        let mut repeated: Vec<(bool, std::net::SocketAddr)> = vec![];
+        repeated.push((true, x.addr(t)));
+        repeated.push((false, x.addr(t2)));
+        repeated.push((true, x.addr(t)));
+        if let Ok(d) = XorMappedAddress::from_raw(&raw) {
+            repeated.push((false, d.addr(t2)));
+            repeated.push((true, d.addr(t)));
+            let c = d.clone();
+            repeated.push((true, c.addr(t)));
+            repeated.push((false, c.addr(t2)));
+            repeated.push((false, d.addr(t2)));
+        }
         let msg_trip = if through_message {
             let mut b = Message::builder(MessageType::from_class_method(MessageClass::Success, 1), t);
             b.add_attribute(&x).ok();
@@ -41,11 +56,11 @@ pub fn check_xor(ctx: &mut Ctx, a: &RefAddr, tid: &[u8; 12], through_message: bo
         } else {
             Some(std_addr)
         };
-        (back, wire, ty, dec, dec2, other, msg_trip, x.length())
+        (back, wire, ty, dec, dec2, other, msg_trip, x.length(), repeated, t2b)
     });
     match r {
         Err(p) => ctx.violation("C13", "no-panic", "XorMappedAddress", "", w, "value".into(), format!("panic: {} at {}", p.msg, p.loc)),
-        Ok((back, wire, ty, dec, dec2, other, msg_trip, len)) => {
+        Ok((back, wire, ty, dec, dec2, other, msg_trip, len, repeated, t2b)) => {
             let fam = if a.v6 { "ipv6" } else { "ipv4" };
             ctx.count(fam);
             if back != std_addr {
@@ -61,6 +76,27 @@ pub fn check_xor(ctx: &mut Ctx, a: &RefAddr, tid: &[u8; 12], through_message: bo
             if msg_trip != Some(std_addr) {
                 ctx.violation("C13", "message-roundtrip", "Message::attribute::<XorMappedAddress>", fam, w, format!("{std_addr}"), format!("{msg_trip:?}"));
             }
+            // expected answer under the other id: the reference decoding of the reference wire value
+            let want_other = match ref_decode(Kind::XorMappedAddress, &ref_encode(Kind::XorMappedAddress, &RefVal::Addr(a.clone()), tid).unwrap(), &t2b) {
+                Some(RefVal::Addr(o)) => Some(o.to_std()),
+                _ => None,
+            };
+            for (i, (same_tid, got)) in repeated.iter().enumerate() {
+                let want = if *same_tid { Some(std_addr) } else { want_other };
+                if Some(*got) != want {
+                    ctx.violation(
+                        "C13",
+                        "addr-depends-only-on-wire-and-id",
+                        "XorMappedAddress::addr",
+                        &format!("{fam},repeated-call"),
+                        w,
+                        format!("call #{i} under the {} id: {want:?}", if *same_tid { "original" } else { "other" }),
+                        format!("{got}"),
+                    );
+                    break;
+                }
+            }
+            ctx.count_n("repeated-addr-calls", repeated.len() as u64);
             if a.v6 {
                 if other == Some(std_addr) {
                     ctx.violation("C13", "other-tid-differs", "XorMappedAddress::addr", fam, w, "a different address".into(), format!("{other:?}"));
